@@ -145,6 +145,17 @@ def run(ctx):
             lo_, hi_ = float(np.min(np.log(Ts_[:3]))) - 0.5, float(np.log(Ts_[0])) + 0.05
             if not (np.all(np.isfinite(got_[:3])) and np.all((got_[:3] > lo_) & (got_[:3] < hi_)) and np.max(np.abs(np.diff(got_[:5]))) < 1.0):
                 viol(f"{name}/extension/short-table", f"{name}: extension below a table starting at ln T = {np.log(Ts_[0]):.4f} is not finite, continuous and anchored at the first tabulated value: ln T = {got_[:3].tolist()}")
+        # CAMB-format files: the total-matter transfer function is the seventh column, whatever the number of columns (>= 7)
+        for ncol in (7, 9, 13):
+            cols = [ks_] + [Ts_ * (0.5 + 0.1 * j_) for j_ in range(1, ncol)]
+            cols[6] = Ts_
+            fnm = os.path.join(tmpdir, f"table_{ncol}col.dat")
+            np.savetxt(fnm, np.column_stack(cols))
+            got7 = tm.FromFile(Planck15, fname=fnm).lnt(np.log(ks_[2:30]))
+            ntab += 1
+            if not np.allclose(got7, np.log(Ts_[2:30]), rtol=1e-8, atol=1e-10):
+                viol(f"FromFile/nodes/{ncol}-column-file", f"FromFile with a {ncol}-column (CAMB-format) file does not reproduce the total-matter column at its nodes (max dev of ln T {np.max(np.abs(got7 - np.log(Ts_[2:30]))):.3g})",
+                     {"columns": ncol})
         # the value at a wavenumber must not depend on where the requested grid starts: same table, one request starting below it and one
         # starting inside it, compared on their common wavenumbers inside the table, at its last node and in the extension above it
         for name, mk2 in {"FromArray": lambda: tm.FromArray(Planck15, k=ks_.copy(), T=Ts_.copy()), "FromFile": lambda: tm.FromFile(Planck15, fname=fname2)}.items():
